@@ -38,7 +38,7 @@ def status_path_frame(repo):
     """what a status / help request runs neither prints to stdout (stdout frame above) nor calls the output point print_guess: it only reads, and every
     method it calls on its parameters is itself in the checked set (C12's read-only frame, shared)"""
     import props.C12 as c12
-    recs = effects.readonly_frame(repo, c12.THREAD_READS, tag='status.readonly')
+    recs = effects.readonly_frame(repo, c12.THREAD_READS, tag='status.readonly', forbidden_calls=c12.WRITERS)
     for r in recs:
         r['name'] = 'C09.' + r['name']
     return recs
